@@ -101,6 +101,15 @@ def handle (st : St) (cmd : String) (args : List String) : St × String :=
       | .ok f => (st, s!"ok {Driver.bytesTok f} {s'.nextOut}")
       | .error k => (st, s!"err {k.name} {s'.nextOut}")
     | _, _, _, _, _, _ => (st, "bad-op")
+  | "send", [mt, c, snd, tgt, nout, now] =>
+    -- the encode + latin-1 step of send_msg
+    match Driver.tokBytes mt, tokCont c, Driver.tokBytes snd, Driver.tokBytes tgt, nout.toInt?, Driver.tokBytes now with
+    | some mt, some c, some snd, some tgt, some nout, some now =>
+      let (r, s') := encodeWire beginString { mtype := mt, body := c } { sender := snd, target := tgt, nextOut := nout } now
+      match r with
+      | .ok f => (st, s!"ok {Driver.bytesTok f} {s'.nextOut}")
+      | .error k => (st, s!"err {k.name} {s'.nextOut}")
+    | _, _, _, _, _, _ => (st, "bad-op")
   | "feed", chunks =>
     match chunks.mapM Driver.tokBytes with
     | none => (st, "bad-op")
